@@ -119,6 +119,13 @@ def np_sqrt(x):
     return v
 
 
+def np_power(x, p):
+    r = lift(x) ** p
+    if isinstance(r, V) and r.is_scalar:
+        r.meta = "numpy"
+    return r
+
+
 SIDE_FACTS = []  # definitional facts of fresh symbols introduced by theory functions (drained by the harness)
 
 
@@ -932,6 +939,7 @@ def numpy_table(interp):
         "ceil": np_ceil,
         "round": np_round,
         "sqrt": np_sqrt,
+        "power": np_power,
         "maximum": np_maximum,
         "minimum": np_minimum,
         "where": np_where,
